@@ -1239,7 +1239,9 @@ class STensor:
             raise Unsupported("min(dim)")
         return self._reduce(lambda x, y: x if compare("le", x, y) else y)
 
-    def norm(self, p=2, dim=None, keepdim=False):
+    def norm(self, p=2, dim=None, keepdim=False, ord=None, **_k):
+        if ord is not None:  # torch.linalg.norm / vector_norm spelling
+            p = ord
         if p != 2:
             raise Unsupported("norm p != 2")
         return self.square().sum(dim, keepdim).sqrt()
